@@ -847,6 +847,15 @@ func psWarm() {
 // the part of the check shared by C14 and C19; arbitrary: the input streams are mutated / random
 func runProtoSessions(cfg Config, rep *Report, m *Model, rng *rand.Rand, sessions, streams int) {
 	psWarm()
+	rep.Notes = append(rep.Notes, fmt.Sprintf("casync protocol sessions (protosession.go): %d whole sessions of the real client against the real "+
+		"ProtocolServer.Serve over io.Pipe with a scripted store (chunk objects built by NewChunk / NewChunkWithID / NewChunkFromStorage, "+
+		"compressed and uncompressed, verified and skipVerify, intact / damaged / other data / no data / a frame of nothing, wrong ids; missing and "+
+		"failing ids) x 0..8 requests, each followed by the server alone on the client's bytes (context found done at pass k, writer that stops "+
+		"after k messages, one-byte reads) and the client alone on the server's bytes; %d mutated streams each way (hello variants, requests "+
+		"with 0..39 body bytes, extra bytes, other and unknown types, length fields from 0 to 2^64-1, truncation at a random byte, bit flips, "+
+		"trailing and random bytes; replies for other chunks, other labels, short / garbage / uncompressed chunk replies) compared with "+
+		"PS.serverRun / PS.clientRun / PS.session: verdict, unread input, every byte written; monitors: no panic, heap, nil only after a "+
+		"goodbye, an accepted chunk hashes to the requested id, results vs what the store holds", sessions, streams))
 	monitor := func(what, caseLine, impl string) {
 		rep.Disagree(Disagreement{Kind: "monitor", Case: clip(caseLine, 100000), Impl: clip(impl, 2000), What: what})
 	}
